@@ -268,6 +268,11 @@ class StmtMixin:
                 return VList(v.t, kind.elem)
         if isinstance(kind, KRef) and isinstance(v, VRef):
             return v
+        if isinstance(kind, KPrim) and kind.name.startswith("Any") and isinstance(v, VPy):
+            # a python-level callable stored in an opaque field: a stable token per callable
+            import re as _re
+            nm = _re.sub(r"[^A-Za-z0-9_]", "_", f"{v.what}_{v.obj}")
+            return VAny(self.decls.const("fn$" + nm, INT), kind.name[4:] or None)
         return v
 
     def set_item(self, st, base, idx, v, node) -> list[Out]:
